@@ -215,7 +215,7 @@ impl EventSource for TrParent {
 pub struct ChildM {
     pub log: Rc<ChildLog>,
     pub fd: Option<SharedFd>,
-    pub peer: Option<OwnedFd>,
+    pub peer: Option<Rc<OwnedFd>>,
     pub is_timer: bool,
 }
 
@@ -252,8 +252,28 @@ fn make_child(sim: &Sim, spec: &ChildSpec, no: u32, parent: Id, fail: u8) -> (Ch
             (Child { imp: ChildImpl::Timer(t), log: log.clone() }, ChildM { log, fd: None, peer: None, is_timer: true })
         }
         _ => {
-            let (r, w) = os::pipe();
-            let fd = SharedFd(Rc::new(r));
+            let same = if matches!(spec, ChildSpec::SameFd) {
+                let st = sim.st.borrow();
+                match st.srcs.get(&parent).map(|s| &s.k) {
+                    Some(K::Trans(t)) => t.current.and_then(|i| match (&t.children[i].fd, &t.children[i].peer) {
+                        (Some(fd), Some(p)) => Some((fd.clone(), p.clone())),
+                        _ => None,
+                    }),
+                    _ => None,
+                }
+            } else {
+                None
+            };
+            let (fd, w) = match same {
+                Some(x) => {
+                    sim.probe("transient_replacement_on_same_fd");
+                    x
+                }
+                None => {
+                    let (r, w) = os::pipe();
+                    (SharedFd(Rc::new(r)), Rc::new(w))
+                }
+            };
             let g = Generic::new(fd.clone(), Interest::READ, Mode::Level);
             (Child { imp: ChildImpl::Pipe(g), log: log.clone() }, ChildM { log, fd: Some(fd), peer: Some(w), is_timer: false })
         }
